@@ -413,7 +413,7 @@ def run(tier):
         pool.run([(MOD, "job_deep", {})], into=t)
         for lo, hi, triples in ((1, 5, True), (6, nmax, False)):
             shapes = tree.shapes_upto(hi, lo)
-            kinds = ("node", "user", "light", "anynode", "weird", "container", "falsylight", "tuplenode", "tuple0")
+            kinds = ("node", "user", "light", "anynode", "weird", "container", "falsylight", "tuplenode", "tuple0", "datanode")
             pool.run([(MOD, "job_shapes", {"shapes": c, "kinds": kinds, "triples": triples})
                       for c in core.chunks(shapes[::-1], core.NPROC * 4)], into=t)
             bounds.append({"part": "shapes", "nodes": [lo, hi], "shapes": len(shapes), "classes": kinds, "triples": triples})
